@@ -19,11 +19,16 @@ TYPES = {
                             ("Uint128::new(5u128)", '"5"')]),
     "Binary": ("Binary", [('Binary::from(b"hi".to_vec())', '"aGk="'), ("Binary::default()", '""')]),
     "U128": ("u128", [("18446744073709551617u128", '18446744073709551617'), ("5u128", '5')]),
+    # u32 arguments carrying a forwarded serde(default): plain, and wrapped in a conditional attribute with a true predicate (C17)
+    "DfltU32": ("u32", [("7u32", "7"), ("4000000000u32", "4000000000")]),
+    "DfltU32W": ("u32", [("7u32", "7"), ("4000000000u32", "4000000000")]),
     # the type parameter of a generic program, instantiated with verif_rrt::GenVal
     "GenT": ("GenVal", [("GenVal { g: 7 }", '{"g":7}'), ("GenVal { g: 4000000000 }", '{"g":4000000000}')]),
 }
 # a JSON value of the wrong type for each argument type
-WRONG = {"u32": '"zz"', "String": "5", "bool": '"zz"', "OptU32": '"zz"', "VecString": "5", "Nested": "5", "Uint128": "true", "Binary": "5", "U128": "true", "GenT": "5"}
+WRONG = {"u32": '"zz"', "String": "5", "bool": '"zz"', "OptU32": '"zz"', "VecString": "5", "Nested": "5", "Uint128": "true", "Binary": "5", "U128": "true", "GenT": "5", "DfltU32": '"zz"', "DfltU32W": '"zz"'}
+# attributes written on handler arguments of these types
+PARAM_ATTR = {"DfltU32": "#[serde(default)] ", "DfltU32W": "#[cfg_attr(all(), serde(default))] "}
 
 CTX = {"exec": ("ExecCtx", "ctx_exec"), "query": ("QueryCtx", "ctx_query"), "sudo": ("SudoCtx", "ctx_sudo"),
        "instantiate": ("InstantiateCtx", "ctx_instantiate"), "migrate": ("MigrateCtx", "ctx_migrate")}
@@ -48,6 +53,8 @@ def body_json(m, val, mode="exact"):
     for i, a in enumerate(m["args"]):
         j = pick(a["t"], val, i)[1]
         if mode == "missing" and i == 0:
+            continue
+        if mode == "dropdefault" and a["t"] in PARAM_ATTR:
             continue
         if mode == "wrongtype" and i == 0:
             j = WRONG[a["t"]]
@@ -80,7 +87,7 @@ def render_doc(prog, s):
             return '{"%s":7}' % s["key"]
         return '{"%s":%s}' % (s["key"], body_json(m, s["val"], s["body"]))
     if sh == "flat":
-        return body_json(m, s["val"])
+        return body_json(m, s["val"], s["body"])
     if sh == "obj0":
         return "{}"
     if sh == "nonobj":
@@ -101,7 +108,10 @@ def handler_src(prog, part, m, in_trait):
     ctx_ty, ctx_fn = CTX[m["kind"]]
     # the type parameter is spelled `Self::ItemT` in an interface (and its impl) and `T` in the contract
     gen_name = "T" if part["id"] == "own" else "Self::ItemT"
-    params = "".join(", %s: %s" % (a["n"], gen_name if a["t"] == "GenT" else TYPES[a["t"]][0]) for a in m["args"])
+    # argument attributes are written where a sylvia macro sees them: the interface trait and the contract impl
+    # (the plain `impl Interface for Contract` block is not a macro input)
+    with_attr = in_trait or part["id"] == "own"
+    params = "".join(", %s%s: %s" % (PARAM_ATTR.get(a["t"], "") if with_attr else "", a["n"], gen_name if a["t"] == "GenT" else TYPES[a["t"]][0]) for a in m["args"])
     ret = (m.get("ret") or m.get("resp") or "QResp") if m["kind"] == "query" else "Response"       # what the handler returns
     explicit = m["kind"] == "query" and m.get("explicit")
     aliased = explicit and m.get("sig", "alias") == "alias"
